@@ -430,3 +430,55 @@ func TestMutexOrderIsObservable(t *testing.T) {
 		t.Fatal(o)
 	}
 }
+
+// a buffered channel is a FIFO also when it is full and a receiver is already waiting: the item of a
+// blocked sender must not overtake the buffered ones
+func TestFullBufferedChannelKeepsOrder(t *testing.T) {
+	st, o := outcomes(t, func() string {
+		c := MakeChan[int](2)
+		Go(func() {
+			for i := 1; i <= 5; i++ {
+				c.Send(i)
+			}
+			c.Close()
+		})
+		s := ""
+		for {
+			v, ok := c.Recv2()
+			if !ok {
+				break
+			}
+			s += fmt.Sprint(v)
+		}
+		return s
+	})
+	if o != "12345" || st.Deadlocks != 0 {
+		t.Fatal("items of a buffered channel must arrive in the order they were sent under every schedule, got ", o, st.Deadlocks)
+	}
+}
+
+// the same through select with a send case (and a second case that is never ready)
+func TestFullBufferedChannelKeepsOrderInSelect(t *testing.T) {
+	_, o := outcomes(t, func() string {
+		c := MakeChan[int](2)
+		stop := MakeChan[int](0)
+		Go(func() {
+			for i := 1; i <= 5; i++ {
+				Select(SendCase(c, i), RecvCase(stop))
+			}
+			c.Close()
+		})
+		s := ""
+		for {
+			v, ok := c.Recv2()
+			if !ok {
+				break
+			}
+			s += fmt.Sprint(v)
+		}
+		return s
+	})
+	if o != "12345" {
+		t.Fatal(o)
+	}
+}
